@@ -23,7 +23,7 @@ CHECKS = {
          "Byte identity of re-export for every generated V5/V7 packet (count sweep exhaustive in the thorough tier), for every V5/V7 element the library returns for buffers cut on/around record boundaries and for hostile histories, and field-wise identity for harness-built structures; a difference is attributed to a field through the offset table.",
          "Exploration only."),
  "C09": (T + "round-trip oracle on conformant V9 streams with a per-cell model of the listed lossy re-export classes",
-         "Re-export must equal the consumed bytes exactly, or equal the input with cells of a listed lossy class (duration, MAC, non-UTF-8 string, unassigned protocol) replaced by exactly what the listed model predicts; anything else is a violation attributed to a unit.",
+         "Streams include consecutive redefinitions that collide under twenty cheap 32-bit fingerprints (birthday-searched twins). Re-export must equal the consumed bytes exactly, or equal the input with cells of a listed lossy class (duration, MAC, non-UTF-8 string, unassigned protocol) replaced by exactly what the listed model predicts; anything else is a violation attributed to a unit.",
          "Lossy classes are listed known findings (two are pinned by the repo's unit tests)."),
  "C10": (T + "round-trip oracle on conformant IPFIX streams with a per-cell model of the listed lossy re-export classes",
          "As C09 for IPFIX (additional listed classes: variable-length prefix, signed width).",
@@ -32,21 +32,21 @@ CHECKS = {
          "After every call: decoded data must follow the latest definition (ground-truth differential), the library's caches must equal the model (latest complete record per id per protocol per parser), no-op inputs (V5/V7, data only, garbage, truncated template packets, disallowed versions) must leave all four maps identical, other parser instances must be untouched, ids never disappear.",
          "Caches are public fields, so no source hook is needed; split-invariance of the same histories is decided by C11's monitor."),
  "C07": (T + "withheld-template histories with cache snapshots and ground-truth differential after the template arrives",
-         "A data set (with records, or without a complete record) whose template was never sent / sent only for the other protocol / only to another parser instance / only in a rejected or truncated template record / received, used and then removed from the public cache by the application must not produce records: V9 packet => one error carrying the packet, IPFIX message => reported without that set; caches identical before/after; earlier packets of the buffer still reported; after the template arrives the identical bytes decode to the abstract records.",
+         "A data set (with records, or without a complete record) whose template was never sent / sent only for the other protocol / only to another parser instance / only in a rejected or truncated template record / received, used and then removed from the public cache (or filed under another key of it) by the application must not produce records: V9 packet => one error carrying the packet, IPFIX message => reported without that set; caches identical before/after; earlier packets of the buffer still reported; after the template arrives the identical bytes decode to the abstract records.",
          "What happens to IPFIX sets after the undecodable one is C05's listed finding and is not judged here."),
  "C11": (T + "metamorphic split monitor: every partition of a packet sequence into calls vs one packet per call (results, caches, common flowsets)",
          "For sequences of n <= 6 (thorough 8) packets all 2^(n-1) partitions are executed on fresh parsers and must give Debug-identical concatenated results, identical final caches and the same number of common flows as one-packet-per-call delivery.",
-         "Only the last packet of a sequence may decode to an error (a mid-sequence error legitimately stops a chained parse)."),
+         "Only the last packet of a sequence may be refused (a refused packet legitimately stops a chained parse); a packet that is decoded and followed by a further error element when delivered alone stays in the sequence and the partitions judge. One sequence in eight runs under a restricted allowed set; one IPFIX message in six carries 1-3 stray octets behind its last set."),
  "C12": (T + "allowed-set differential: parser(S) vs parser(all versions) vs parser fed only the allowed prefix",
-         "All 16 subsets of {5,7,9,10} (plus extra numbers) crossed with chained, hostile and mutated buffers and prior histories: results must be the all-allowed results up to the first disallowed version, caches must equal those of a parser that never saw the rest, allowed-but-unknown versions must end in an UnknownVersion error with the unparsed bytes.",
+         "All 16 subsets of {5,7,9,10} (plus extra numbers) crossed with chained, hostile and mutated buffers and prior histories: results must be the all-allowed results up to the first disallowed version, caches must equal those of a parser that never saw the rest, allowed-but-unknown versions must end in an UnknownVersion error with the unparsed bytes; what the leading version word alone decides is stated without a second parser (not in S: nothing; in S but not decodable: exactly one UnknownVersion error); allowed_versions must be left as the caller assigned it.",
          "Element boundaries are taken from the accounting monitor over the all-allowed run."),
  "C14": (T + "truncation monitor: every proper prefix of generated valid packets, alone and after complete packets, fresh and warm caches",
-         "Each cut must give the preceding packets unchanged plus exactly one error whose remaining bytes are the truncated packet; V5/V7/IPFIX cuts must leave the four caches identical.",
+         "Each cut must give the preceding packets unchanged plus exactly one error whose remaining bytes are the truncated packet; V5/V7/IPFIX cuts must leave the four caches identical, including states only an application can build (one id in both maps of a protocol after a kept copy of the maps was merged back in).",
          "V9 cuts on flowset boundaries are excluded as the property states; all cut points for packets up to 400 bytes (2 KiB for every 8th / in the thorough tier), structural boundaries and samples beyond."),
  "C13": (T + "projection oracle: as_netflow_common / parse_bytes_as_netflow_common_flowsets vs a projection computed from the abstract stream with an independent projected-field table",
          "For V5/V7/V9/IPFIX streams whose templates mix the ten projected fields (IPv4 or IPv6 variants) with others: version, timestamp, one flow per record in order, every field equal to the abstract value and None exactly when the record has no such field; errors convert to Err; the flattening helper equals the concatenation over the packets of the buffer.",
          "Projected fields are generated at their natural widths and at most once per template so that the projection is unambiguous."),
- "C15": (T + "counting global allocator around every parse_bytes call (work / single-request / output bounds on hostile histories, constant-free doubling tests on 35 size-parametrised families, cache-size independence, announced-count inputs) plus valgrind/callgrind instruction counts of single parse_bytes calls (doubling and cache-size independence of the CPU cost)",
+ "C15": (T + "counting global allocator around every parse_bytes call (work / single-request / output bounds on hostile histories, constant-free doubling tests on 48 size-parametrised families, cache-size independence, announced-count inputs) plus valgrind/callgrind instruction counts of single parse_bytes calls (doubling and cache-size independence of the CPU cost)",
          "Bytes requested, allocation count, peak, largest single request and result size (bytes released when the result is dropped) are deterministic per call; instruction counts of the measured call come from callgrind (counters zeroed on entry, dumped on exit). Sharp monitors: doubling pairs in allocation and in instructions (k vs 2k must stay linear for every repetition of the format), cache-size independence (same input on a fresh parser and on one holding thousands of unrelated templates) and the single-request bound (no allocation sized by a count/length field beyond what the input or result justifies); the absolute bounds use constants calibrated on the repaired tree.",
          "CPU cost is observed only along the doubling families, allocation on every call; calls whose caches hold zero-length fields are attributed to the listed amplification finding and judged against exactly that model's allowance. A missing valgrind makes the instruction monitor inconclusive (note), never a violation."),
  "C16": (T + "JSON oracle: serde_json output read back by an independent order-preserving reader and compared with a tree built independently from the decoded structure; text compared across repeats and parser instances",
